@@ -196,11 +196,38 @@ def with_stutter(rng, case, cid):
     return Case(cid, [" ".join(w[:3] + [",".join(map(str, out)) or "-"])])
 
 
+def delayed_constructor_cases():
+    """The constructing thread is held up between the creation of the std::thread and the end of the
+    ManagedThread constructor while the managed thread runs to completion; then the constructor finishes,
+    join(), and observers query isActive() (oracle: inactive after join; active in every sample taken while the
+    function runs).  The scheduler does not assume which thread passes which `managed.*` sync point: thread 0 is
+    released as often as it takes whatever it finds on its way (entries for a thread that is finished or has to
+    wait are stutter steps on both sides)."""
+    cases = []
+    i = 0
+    for nobs in (1, 2):
+        tails = [[2], [2, 2]] + ([[2, 3], [3, 2, 3]] if nobs == 2 else [])
+        for k in (4, 5, 6, 7):                 # steps of the managed thread (5 to completion; 4: stops before its last store)
+            for m in (1, 2, 3, 4):             # releases of the constructing thread afterwards (end of constructor, join)
+                for tail in tails:
+                    sched = [0, 0] + [1] * k + [0] * m + tail
+                    cases.append(Case("dc%d" % i, ["conc managed %d %s" % (nobs, ",".join(map(str, sched)))]))
+                    i += 1
+        # the same with samples in between and the constructor finishing while the function runs
+        for sched in ([0, 0, 1, 1, 2, 1, 1, 1, 1, 0, 0, 0, 2], [0, 0, 1, 1, 0, 2, 1, 1, 1, 0, 0, 2],
+                      [0, 0, 1, 0, 0, 2, 1, 1, 2, 1, 1, 1, 0, 0, 2], [0, 0, 0, 1, 1, 1, 1, 1, 1, 0, 0, 2]):
+            cases.append(Case("dc%d" % i, ["conc managed %d %s" % (nobs, ",".join(map(str, sched)))]))
+            i += 1
+    return cases
+
+
 def generate(prop, tier, seed, scale=1):
     rng = random.Random("%s-%s" % (prop, seed))
     quick = tier == "quick"
     # decisive, cheap batches first (check.py stops collecting after 25 problems, tie-only differences included)
     yield "lock probe", [Case("probe%d" % i, ["conc probe-lock"]) for i in range(2)]
+    yield ("managed thread: constructing thread delayed between thread creation and the end of the constructor, "
+           "managed thread runs to completion, join, isActive()"), delayed_constructor_cases()
     rounds = 40 if quick else 400
     soak = [Case("soak-s%d" % n, ["conc soak singleton %d %d" % (n, rounds)]) for n in ([2, 3, 8, 16] if quick else range(2, 17))]
     soak += [Case("soak-m%d" % n, ["conc soak managed %d %d" % (n, rounds)]) for n in ([1, 4, 15] if quick else range(1, 16))]
